@@ -162,6 +162,15 @@ func (rpcsim) Generate(rng *Rand, prop, tier string) *Script {
 			if outstanding > 0 && kind < 3 {
 				outstanding--
 			}
+		case r < 91 && s.Cfg["mode"] == 0 && outstanding > 1:
+			// several replies leave the peer in ONE segment: the client's reader decodes the
+			// next frame while the previous reply is still being handed to its caller
+			n := rng.Range(2, 6)
+			s.Ops = append(s.Ops, Op{K: "burst", A: int64(n), B: int64(rng.Intn(16)), F: rng.Bool(20)})
+			outstanding -= n
+			if outstanding < 0 {
+				outstanding = 0
+			}
 		default:
 			s.Ops = append(s.Ops, Op{K: "adv", A: int64(rng.Range(1, 3000))})
 			if rng.Bool(5) {
@@ -205,6 +214,7 @@ type rpcRun struct {
 	poisonedAt time.Duration
 	step       int
 	shape      []string
+	batch      *bytes.Buffer // burst: frames collected for a single write
 }
 
 func (rr *rpcRun) viol(clause, format string, a ...interface{}) {
@@ -478,6 +488,29 @@ func (rr *rpcRun) run() {
 			req := rr.pending[k]
 			rr.reply(req, op.B, k)
 			settle(5 * time.Millisecond)
+		case "burst":
+			if len(rr.pending) < 2 || realServer {
+				rr.shape = append(rr.shape, "burst-none")
+				continue
+			}
+			rr.batch = &bytes.Buffer{}
+			n := 0
+			for j := 0; j < int(op.A) && len(rr.pending) > 0; j++ {
+				k := (int(op.B) + j*7) % len(rr.pending)
+				kind := int64(0)
+				if op.F && j == 1 {
+					kind = 1 // an error reply (carries text) in the middle of the burst
+				}
+				rr.reply(rr.pending[k], kind, k)
+				n++
+			}
+			b := rr.batch.Bytes()
+			rr.batch = nil
+			c := rr.srvConn
+			simrt.GoNamed(rr.w.Node("peer"), fmt.Sprintf("peer/burst%d", rr.w.Counter("peersend")), func() { c.Write(b) })
+			rr.res.stat("reply_bursts", 1)
+			rr.res.stat("replies_in_bursts", int64(n))
+			settle(5 * time.Millisecond)
 		case "adv":
 			settle(time.Duration(op.A) * time.Millisecond)
 			rr.shape = append(rr.shape, "adv")
@@ -554,6 +587,10 @@ func (rr *rpcRun) findOp(req *frame) *rpcOp { return rr.reqOp[req] }
 
 func (rr *rpcRun) send(f *frame) {
 	b := f.encode()
+	if rr.batch != nil {
+		rr.batch.Write(b)
+		return
+	}
 	c := rr.srvConn
 	simrt.GoNamed(rr.w.Node("peer"), fmt.Sprintf("peer/send%d", rr.w.Counter("peersend")), func() { c.Write(b) })
 }
